@@ -303,6 +303,22 @@ func init() {
 			}
 		}
 	}
+	// proto.Clone: a fresh message of the same dynamic type with the same field values (nested slices/messages
+	// are shared in the model; deep copying of nested data is not represented).
+	for _, pk := range []string{"github.com/gogo/protobuf/proto", "github.com/golang/protobuf/proto"} {
+		builtinModels[pk+".Clone"] = func(s *Session, fr *Frame, fn *ssa.Function, args []Val, st *State) Val {
+			org, ok := s.ifaceOrigin[args[0].T0().S]
+			pt, isPtr := org.typ.(*types.Pointer)
+			if !ok || !isPtr {
+				s.note("proto.Clone of a message of unknown dynamic type in %s: result arbitrary", fr.fn.String())
+				return s.freshResult(st, fn.Signature.Results(), "clone")
+			}
+			src := s.load(st, s.toLoc(org.val))
+			loc := s.alloc(st, pt.Elem())
+			s.store(st, loc, src)
+			return s.makeInterface(st, scalar(org.typ, loc.Ref), org.typ, fn.Signature.Results().At(0).Type())
+		}
+	}
 	builtinModels["bytes.Equal"] = func(s *Session, fr *Frame, fn *ssa.Function, args []Val, st *State) Val {
 		h := s.heapGet(st, heapName("A", "byte", ""), arrSort(arrSort(SInt)))
 		a := s.uf("bytes2str", SInt, Select(h, args[0].L[0]), args[0].L[1], args[0].L[2])
